@@ -1,1 +1,220 @@
-/-! C17 — property theorems (stub: nothing proved yet). -/
+import B6.Lemmas.Merged
+/-!
+# C17 — worlds merged from several index files act as one world
+
+Theorems about `B6.Model.Merged` (the model of `compact.World.Merge`, `findWithoutCache`,
+`hasFeatureWithID`, `FindLocationByID`, `World.FindFeatures` / `b6.MergeFeatures`), for **any number of
+files**, any namespace tables (shared or different per file), any merge order:
+
+* `merged_lookup` — a lookup in the merged world is the first hit over the files in merge order;
+  `merged_lookup_from_any_file` — a feature held by any file is found; `merged_lookup_union` — when the
+  files agree about an id (in particular when their id sets are disjoint) the merged world answers exactly
+  like any single index that holds the same features; `merged_lookup_order_irrelevant` — and the order in
+  which the files were merged does not matter (`ReadWorld` merges concurrently).
+* `has_eq_find` — `FeaturesByID.HasFeatureWithID` (as repaired) agrees with the lookup;
+  `has_first_block_counterexample` — the function as first written does not.
+* `merged_search` — the merged search result is strictly ascending (id order, no duplicates) and has exactly
+  the members of the per-index streams; `merged_search_union` — it equals the stream of any single index
+  that yields the union; `merged_search_order_irrelevant`.
+* `overlay_path_resolves` — the points of a path resolve through whatever file stores their location: an
+  overlay file that only carries references-only entries for base points never hides a base location,
+  wherever it sits in the merge order; `overlay_path_no_panic`.
+
+What is *not* proved here: that each file's blocks / index are what the builder should have written for its
+features (C01 / C03 / C08); the driver checks the hypotheses (`Sorted` streams) on the data it sees.
+-/
+namespace B6.Props.C17
+open B6.Model.Merged B6.Lemmas.Merged
+
+variable {α β κ : Type}
+
+theorem mergeBlocks_cons (f : File α β κ) (fs : List (File α β κ)) :
+    mergeBlocks (f :: fs) = f.blocks ++ mergeBlocks fs := by
+  simp [mergeBlocks]
+
+theorem mem_mergeBlocks {fs : List (File α β κ)} {b : Block α β} :
+    b ∈ mergeBlocks fs ↔ ∃ f ∈ fs, b ∈ f.blocks := by
+  simp [mergeBlocks, List.mem_flatMap]
+
+/-! ## Lookups -/
+
+/-- `find (merge [ix₁ … ixₙ]) id` = the first hit in file order. -/
+theorem merged_lookup (fs : List (File α β κ)) (id : ID) :
+    find (mergeBlocks fs) id = (fs.map (fun f => find f.blocks id)).foldr Option.or none := by
+  unfold find
+  split
+  · induction fs with
+    | nil => simp [mergeBlocks, findIn]
+    | cons f fs ih => rw [mergeBlocks_cons, findIn_append, ih]; simp
+  · induction fs with
+    | nil => simp
+    | cons f fs ih => simp [← ih]
+
+example : find (mergeBlocks
+    [ (⟨[0, 5], [⟨0, [1, 1, 1, 1], [0, 5], [⟨1, .full, "a", some "x"⟩]⟩], fun _ => []⟩ : File String String Unit),
+      ⟨[0, 5, 7], [⟨0, [1, 1, 1, 1], [0, 5, 7], [⟨2, .full, "b", some "y"⟩]⟩], fun _ => []⟩ ]) ⟨0, 5, 2⟩
+    = some "b" := by decide
+
+/-- Lookups find features from any file: whatever a file holds is found in the merged world. -/
+theorem merged_lookup_from_any_file (fs : List (File α β κ)) (id : ID) (c : α)
+    (ht : id.typ < numTypes) (h : ∃ f ∈ fs, ∃ b ∈ f.blocks, Holds b id c) :
+    ∃ c', find (mergeBlocks fs) id = some c' := by
+  obtain ⟨f, hf, b, hb, hh⟩ := h
+  unfold find
+  rw [if_pos ht]
+  exact findIn_complete ⟨b, mem_mergeBlocks.2 ⟨f, hf, hb⟩, hh⟩
+
+/-- … and whatever the merged world answers is held by one of the files. -/
+theorem merged_lookup_sound (fs : List (File α β κ)) (id : ID) (c : α)
+    (h : find (mergeBlocks fs) id = some c) : ∃ f ∈ fs, ∃ b ∈ f.blocks, Holds b id c := by
+  unfold find at h
+  split at h
+  · obtain ⟨b, hb, hh⟩ := findIn_sound h
+    obtain ⟨f, hf, hbf⟩ := mem_mergeBlocks.1 hb
+    exact ⟨f, hf, b, hbf, hh⟩
+  · simp at h
+
+/-- When the blocks agree about `id` (e.g. the files' id sets are disjoint), the merged world answers like
+**any** world `u` — in particular the single index built from the union — that holds the same features. -/
+theorem merged_lookup_union (w u : List (Block α β)) (id : ID) (hw : Agree w id)
+    (hsame : ∀ c, (∃ b ∈ u, Holds b id c) ↔ (∃ b ∈ w, Holds b id c)) :
+    find u id = find w id := by
+  unfold find
+  split
+  · cases hfw : findIn w id with
+    | some c =>
+      obtain ⟨c', hc'⟩ := findIn_complete ((hsame c).2 (findIn_sound hfw))
+      obtain ⟨b1, hb1, h1⟩ := (hsame c').1 (findIn_sound hc')
+      obtain ⟨b2, hb2, h2⟩ := findIn_sound hfw
+      rw [hc', hw b1 hb1 b2 hb2 c' c h1 h2]
+    | none =>
+      cases hfu : findIn u id with
+      | none => rfl
+      | some c' =>
+        obtain ⟨c'', hc''⟩ := findIn_complete ((hsame c').1 (findIn_sound hfu))
+        rw [hfw] at hc''; simp at hc''
+  · rfl
+
+/-- The order in which the files are merged does not matter when they agree about the id. -/
+theorem merged_lookup_order_irrelevant (fs fs' : List (File α β κ)) (id : ID) (hp : fs.Perm fs')
+    (hw : Agree (mergeBlocks fs) id) : find (mergeBlocks fs') id = find (mergeBlocks fs) id := by
+  apply merged_lookup_union _ _ _ hw
+  intro c
+  constructor
+  · rintro ⟨b, hb, hh⟩
+    obtain ⟨f, hf, hbf⟩ := mem_mergeBlocks.1 hb
+    exact ⟨b, mem_mergeBlocks.2 ⟨f, hp.mem_iff.2 hf, hbf⟩, hh⟩
+  · rintro ⟨b, hb, hh⟩
+    obtain ⟨f, hf, hbf⟩ := mem_mergeBlocks.1 hb
+    exact ⟨b, mem_mergeBlocks.2 ⟨f, hp.mem_iff.1 hf, hbf⟩, hh⟩
+
+/-- `FeaturesByID.HasFeatureWithID` (repaired: every matching block, references-only entries are not
+features) says exactly whether the lookup succeeds. -/
+theorem has_eq_find (w : List (Block α β)) (id : ID) : hasByID w id = (find w id).isSome := by
+  unfold hasByID find
+  split
+  · exact hasIn_eq w id
+  · rfl
+
+/-- `hasFeatureWithID` as first written returned the answer of the first block whose namespace matched:
+one namespace split over two files, the id in the second — found, yet reported absent. -/
+theorem has_first_block_counterexample :
+    ∃ (w : List (Block Nat Nat)) (id : ID), find w id ≠ none ∧ hasFirstBlock w id = false :=
+  ⟨[⟨0, [1, 1, 1, 1], [0, 5], [⟨1, .full, 10, some 100⟩]⟩,
+    ⟨0, [1, 1, 1, 1], [0, 5], [⟨2, .full, 20, some 200⟩]⟩], ⟨0, 5, 2⟩, by decide⟩
+
+/-- … and it reported a references-only entry (a point some path mentions, stored elsewhere or nowhere)
+as a feature. -/
+theorem has_first_block_refonly_counterexample :
+    ∃ (w : List (Block Nat Nat)) (id : ID), find w id = none ∧ hasFirstBlock w id = true :=
+  ⟨[⟨0, [1, 1, 1, 1], [0, 5], [⟨1, .refOnly, 0, none⟩]⟩], ⟨0, 5, 1⟩, by decide⟩
+
+/-! ## Searches -/
+
+/-- Searches merge the per-index results in id order without duplicates: for any number of files whose
+index streams are ascending, the merged result is strictly ascending and contains exactly the ids some
+index yields. -/
+theorem merged_search (fs : List (File α β κ)) (q : κ) (hs : ∀ f ∈ fs, Sorted (f.index q)) :
+    StrictSorted (search fs q) ∧ ∀ x, x ∈ search fs q ↔ ∃ f ∈ fs, x ∈ f.index q := by
+  have hs' : ∀ c ∈ fs.map (·.index q), Sorted c := by
+    intro c hc
+    obtain ⟨f, hf, rfl⟩ := List.mem_map.1 hc
+    exact hs f hf
+  obtain ⟨h1, h2⟩ := merged_spec (fs.map (·.index q)) hs'
+  refine ⟨h1, fun x => ?_⟩
+  unfold search
+  rw [h2]
+  constructor
+  · rintro ⟨c, hc, hx⟩
+    obtain ⟨f, hf, rfl⟩ := List.mem_map.1 hc
+    exact ⟨f, hf, hx⟩
+  · rintro ⟨f, hf, hx⟩
+    exact ⟨f.index q, List.mem_map.2 ⟨f, hf, rfl⟩, hx⟩
+
+example : search
+    [ (⟨[], [], fun _ => [⟨0, 1, 1⟩, ⟨0, 1, 4⟩, ⟨1, 2, 1⟩]⟩ : File Unit Unit Unit),
+      ⟨[], [], fun _ => [⟨0, 1, 2⟩, ⟨0, 1, 4⟩]⟩, ⟨[], [], fun _ => []⟩, ⟨[], [], fun _ => [⟨0, 0, 9⟩, ⟨1, 2, 1⟩]⟩ ] ()
+    = [⟨0, 0, 9⟩, ⟨0, 1, 1⟩, ⟨0, 1, 2⟩, ⟨0, 1, 4⟩, ⟨1, 2, 1⟩] := by decide
+
+/-- The merged result is the result of any single index `u` that yields, strictly ascending, the union of
+what the files' indices yield — the one-file build of the union. -/
+theorem merged_search_union (fs : List (File α β κ)) (q : κ) (hs : ∀ f ∈ fs, Sorted (f.index q))
+    (u : List ID) (hu : StrictSorted u) (hsame : ∀ x, x ∈ u ↔ ∃ f ∈ fs, x ∈ f.index q) :
+    search fs q = u := by
+  obtain ⟨h1, h2⟩ := merged_search fs q hs
+  exact StrictSorted.ext h1 hu (fun x => by rw [h2, hsame])
+
+/-- The order in which the files were merged does not change a search result. -/
+theorem merged_search_order_irrelevant (fs fs' : List (File α β κ)) (q : κ) (hp : fs.Perm fs')
+    (hs : ∀ f ∈ fs, Sorted (f.index q)) : search fs' q = search fs q := by
+  have hs' : ∀ f ∈ fs', Sorted (f.index q) := fun f hf => hs f (hp.mem_iff.2 hf)
+  obtain ⟨h1, h2⟩ := merged_search fs q hs
+  obtain ⟨h1', h2'⟩ := merged_search fs' q hs'
+  apply StrictSorted.ext h1' h1
+  intro x
+  rw [h2, h2']
+  constructor
+  · rintro ⟨f, hf, hx⟩; exact ⟨f, hp.mem_iff.2 hf, hx⟩
+  · rintro ⟨f, hf, hx⟩; exact ⟨f, hp.mem_iff.1 hf, hx⟩
+
+/-! ## Overlay paths -/
+
+/-- Blocks that store no location for any of the referenced points — an overlay file, which carries only
+references-only entries for the base points its paths run over — never change how a path resolves,
+wherever they sit in the merge order. -/
+theorem overlay_path_resolves (pre o post : List (Block α β)) (refs : List ID)
+    (ho : ∀ r ∈ refs, ∀ b ∈ o, ∀ l, ¬ Locates b r l) :
+    pathPoints (pre ++ o ++ post) refs = pathPoints (pre ++ post) refs := by
+  unfold pathPoints
+  apply mapM_loc_congr
+  intro r hr
+  have hn : loc o r = none := loc_eq_none_iff.2 (ho r hr)
+  rw [List.append_assoc, loc_append, loc_append, loc_append, hn]
+  simp
+
+/-- A references-only entry stores no location. -/
+theorem refOnly_not_located (b : Block α β) (id : ID)
+    (h : ∀ e, b.findFirst id.val = some e → e.kind = .refOnly) (l : β) : ¬ Locates b id l := by
+  rintro ⟨_, e, he, hr, _⟩
+  have := h e he
+  simp [Entry.real, this] at hr
+
+/-- If every point a path references has its location stored by some merged block (of the base, of the
+overlay itself, in whatever order they were merged), resolving the path does not panic and yields one
+location per reference. -/
+theorem overlay_path_no_panic (w : List (Block α β)) (refs : List ID)
+    (h : ∀ r ∈ refs, ∃ b ∈ w, ∃ l, Locates b r l) :
+    ∃ ls, pathPoints w refs = some ls ∧ ls.length = refs.length := by
+  unfold pathPoints
+  apply mapM_loc_some
+  intro r hr
+  obtain ⟨b, hb, l, hl⟩ := h r hr
+  exact loc_complete ⟨b, hb, hl⟩
+
+/-- overlay merged *before* its base: the path 42 over base points 1 and 3 resolves to the base's locations -/
+example : pathPoints
+    ([ (⟨0, [1, 2, 2, 3], [0, 1, 2, 3], [⟨1, .refOnly, "", none⟩, ⟨3, .refOnly, "", none⟩]⟩ : Block String String) ] ++
+     [ ⟨0, [1, 2, 2, 3], [0, 1, 2, 3], [⟨1, .full, "p1", some "A"⟩, ⟨2, .full, "p2", some "B"⟩, ⟨3, .full, "p3", some "C"⟩]⟩ ])
+    [⟨0, 1, 1⟩, ⟨0, 1, 3⟩] = some ["A", "C"] := by decide
+
+end B6.Props.C17
